@@ -3,7 +3,7 @@ package main
 func init() {
 	checks = append(checks, &CheckSpec{
 		Prop:    "C19",
-		Harness: []string{"c01_chain.go", "c16_keyid.go", "authz_gen.go", "c19_race.go"},
+		Harness: hb("c19_race.go"),
 		Entries: []EntrySpec{
 			{Pkg: "biscuit", Func: "VerifC19Shared", Quick: p(), Thorough: p(), Covers: []string{"ran"}, Race: true},
 		},
